@@ -339,3 +339,21 @@ def _(h):
         X = SO2(Rs if m > 1 else Rs[0], check=False)
         r, d = X.theta(), X.theta(unit='deg')
         h.eq(f'SO2.theta len {m}', np.asarray(d, dtype=object), np.asarray(r, dtype=object) * (180 / math.pi), tol=1e-9, scale=180)
+
+
+# ----------------------------------------------------------------------------- a scalar angle where one angle or a vector of angles is documented
+
+from spatialmath import Twist3 as _Tw3      # noqa: E402
+
+for _axn in ('Rx', 'Ry', 'Rz'):
+    @claim(f'scalar-angle:Twist3.{_axn}')
+    def _(h, axn=_axn):
+        """Twist3.Rx/Ry/Rz document a float angle (and a vector of angles): the scalar form equals the one-element vector
+        form, in radians and in degrees"""
+        a = h.angle('a', -6.29, 6.29)
+        f = getattr(_Tw3, axn)
+        h.same('scalar = [scalar]', f(a).S, f([a]).S)
+        h.same('degrees, scalar', f(h.deg(a), 'deg').S, f([a]).S)
+        h.true('single-valued', len(f(a)) == 1)
+        two = f([a, 0.5])
+        h.true('two angles, two values', len(two) == 2)
